@@ -43,12 +43,14 @@ MANIFEST = dict(
               'exception-class x stage injection through the real code; structure-aware mutation stream against a live '
               'in-process provider / consumer with state snapshots',
     text='Properties/C13.lean proves: do_POST / do_GET answer for every outcome of every stage (no exception class reaches the '
-         'server loop, unconditionally); do_post returns (status, reason, body) whenever building the fault reply does not raise, '
-         'with the negative witness for the unguarded reply code and the exact set of calls an escape can come from; a request '
-         'rejected before dispatch is answered with the rejection status and a fault and leaves the state unchanged; a regular '
-         'response is only given if all stages succeeded; the chunked reader terminates on every byte string (C17); every parser '
-         'site that sees peer data has resolve_entities / network / DTD loading off (generated, decide). The skeleton is compared '
-         'with the real do_post/do_get/do_POST/do_GET by exhaustive fault injection.',
+         'server loop, unconditionally); do_post returns (status, reason, body) whenever building the fault reply does not raise '
+         '(doPost_total_partial), with the negative witness for the unguarded reply code (doPost_total_full_fails, replayed on the '
+         'implementation, known finding) and the exact set of calls an escape can come from; a request rejected before dispatch is '
+         'answered with the rejection status and a fault and leaves the state unchanged; a regular response is only given if all '
+         'stages succeeded; the deferred worker of the consumer endpoint survives every handler exception, hands every queued '
+         'request to its handler and drains a full queue (no blocked on_post); the chunked reader terminates on every byte string '
+         '(C17); every parser site that sees peer data has resolve_entities / network / DTD loading off (generated, decide). The '
+         'skeleton is compared with the real do_post/do_get/do_POST/do_GET/_read_queue by exhaustive fault injection.',
     note='PARTIAL by nature: libxml2 (parsing, entity handling, termination), lxml schema validation and the bodies of the '
          'service handlers are not modelled - they are stage parameters; their behaviour on hostile input is only covered by the '
          'mutation stream (no escape, no hang, well-formed fault, no entity expansion, no external fetch, state snapshot). '
@@ -56,7 +58,8 @@ MANIFEST = dict(
          'modelled (the handler has no read timeout). BaseException subclasses (KeyboardInterrupt, SystemExit) are not caught by design.',
     ref='5 C13')
 DRIVERS = ['drv_c13']
-RULE = ('one case = one assignment of outcomes (ok / exception class) to the stages of do_post, do_get, do_POST, do_GET | one mutated '
+RULE = ('one case = one assignment of outcomes (ok / exception class) to the stages of do_post, do_get, do_POST, do_GET | one history of '
+        'handler outcomes for the deferred worker | one mutated '
         'request (service path, headers, body bytes) against the live provider or consumer middleware | one raw HTTP request '
         'against the real request handler; distinct by canonical JSON; non-trivial = at least one stage fails / the request '
         'differs from the recorded valid one')
@@ -1090,6 +1093,155 @@ def parse_responses(out):
     return res
 
 
+# ================================================================================================ deferred dispatch (consumer)
+def impl_deferred(cap, items):
+    """real DispatchKeyRegistryDeferred with queue capacity `cap`; items = [(id, exception factory | None)] posted in order.
+    Returns (handled ids in order, worker alive, number of on_post calls that did not return)"""
+    import queue as _queue
+
+    from sdc11073.consumer import request_handler_deferred as rhd
+    from sdc11073.dispatch import DispatchKey
+    with mock.patch.object(rhd, 'queue', types.SimpleNamespace(Queue=lambda n=0: _queue.Queue(cap))):
+        reg = rhd.DispatchKeyRegistryDeferred('verif')
+    reg._logger = mock.MagicMock()
+    handled = []
+
+    def mk(i, f):
+        def handler(req):
+            handled.append(i)
+            if f is not None:
+                raise f()
+        handler.__name__ = f'h{i}'
+        return handler
+    for i, f in items:
+        reg.register_post_handler(DispatchKey(f'act{i}', None), mk(i, f))
+    stuck = 0
+    saved = c17.W_TIMEOUT
+    c17.W_TIMEOUT = 3.0
+    try:
+        for i, f in items:
+            rd = types.SimpleNamespace(message_data=types.SimpleNamespace(action=f'act{i}', q_name=None), path_elements=[])
+            r = WD.call(reg.on_post, rd)
+            if r[0] != 'ok':
+                stuck += 1
+                break
+    finally:
+        c17.W_TIMEOUT = saved
+    deadline = time.time() + 3
+    while len(handled) < len(items) and time.time() < deadline and reg._worker.is_alive():
+        time.sleep(0.002)
+    time.sleep(0.01)
+    return list(handled), reg._worker.is_alive(), stuck
+
+
+def deferred_correspondence(ctx, B, classes):
+    """worker loop of the consumer's deferred dispatcher: survives every handler exception, drains a full queue"""
+    by_name = {c[2]: c[0] for c in classes}
+
+    def one(cap, items, what):
+        handled, alive, stuck = impl_deferred(cap, [(i, c[1] if c else None) for i, c in items])
+        got = f"handled={' '.join(map(str, handled))} queue=0 alive={'true' if alive else 'false'} blocked={stuck}"
+        # a schedule of the model in which no put blocks: a worker pass before every post beyond the capacity, then drain
+        ops = []
+        for n, (i, c) in enumerate(items):
+            if n >= cap:
+                ops.append('w')
+            ops.append(f"{i}={model_token(c[2]) if c else 'ok'}")
+        ops += ['w'] * len(items)
+        case = {'kind': 'deferred', 'cap': cap, 'items': [[i, c[0] if c else None] for i, c in items]}
+        ctx.case({'k': 'df', **case}, nontrivial=any(c for _, c in items))
+        ctx.count('deferred:' + what)
+        if not alive:
+            ctx.fail('deferred:worker-dead', f'the worker thread of DispatchKeyRegistryDeferred ended after a handler raised; handled {handled} of '
+                     f'{[i for i, _ in items]}', case)
+        elif stuck:
+            ctx.fail('do_post:hang', 'DispatchKeyRegistryDeferred.on_post blocks on the full queue although the worker should drain it', case)
+        elif handled != [i for i, _ in items]:
+            ctx.fail('deferred:request-not-handled', f'handled {handled} of {[i for i, _ in items]}', case)
+        B.add(f'deferred {cap} ' + ' '.join(ops), got, 'worker loop == DispatchKeyRegistryDeferred._read_queue', case, names=by_name)
+    stride = 1 if ctx.tier == 'thorough' else 4
+    for n, c in enumerate(classes):
+        if n % stride == 0 or c[2].startswith(('h', 'p')):
+            one(1000, [(1, c), (2, None)], 'class-then-ok')
+    ve = next(c for c in classes if c[0] == 'ValueError')
+    ke = next(c for c in classes if c[0] == 'KeyError')
+    one(1000, [(1, None), (2, ve), (3, ke), (4, None), (5, ve), (6, None)], 'mixed')
+    one(3, [(i, ve if i % 2 else None) for i in range(1, 12)], 'more-than-capacity')
+    one(1, [(i, ke) for i in range(1, 8)], 'capacity-1-all-raise')
+    one(5, [(i, None) for i in range(1, 30)], 'more-than-capacity')
+
+
+def consumer_history(ctx, sess):
+    """the live consumer endpoint after a notification whose handler raised: the next ones are still processed, and do_post keeps
+    returning when more notifications follow than the queue holds"""
+    disp = sess.cons._services_dispatcher
+    pool = [r for r in sess.notifications if b'EpisodicMetricReport' in r['body']] or sess.notifications
+    if not pool or not hasattr(disp, '_queue'):
+        ctx.count('consumer-history:skipped')
+        return
+    rec = pool[0]
+    ran = {'n': 0, 'raise': False}
+    for key, func in list(disp._post_handlers.items()):
+        def wrapper(req, func=func):
+            ran['n'] += 1
+            if ran['raise']:
+                ran['raise'] = False
+                raise RuntimeError('injected by the harness: handler fails')
+            return func(req)
+        wrapper.__name__ = getattr(func, '__name__', 'handler')
+        disp._post_handlers[key] = wrapper
+    case = {'kind': 'consumer-history', 'path': rec['path'], 'body': c17.hx(rec['body'])}
+
+    def post(body=None):
+        return WD.call(sess.c_mw.do_post, mk_hdr(), rec['path'], ('127.0.0.1', 40001), rec['body'] if body is None else body)
+
+    def wait_for(n, timeout=5.0):
+        deadline = time.time() + timeout
+        while ran['n'] < n and time.time() < deadline:
+            time.sleep(0.005)
+        return ran['n'] >= n
+    saved = c17.W_TIMEOUT
+    c17.W_TIMEOUT = 8.0
+    try:
+        base = ran['n']
+        r = post()
+        if r[0] != 'ok' or r[1][0] != 200 or not wait_for(base + 1):
+            ctx.count('consumer-history:baseline-not-processed')   # nothing to conclude (worker may already be dead: next check)
+        # 1. a schema-valid report naming an unknown descriptor (handler may raise), 2. a handler that certainly raises
+        odd = re.sub(rb'DescriptorHandle="[^"]*"', b'DescriptorHandle="c13.no-such-handle"', rec['body'], count=1)
+        post(odd)
+        time.sleep(0.05)
+        ran['raise'] = True
+        post()
+        time.sleep(0.05)
+        before = ran['n']
+        r = post()
+        if r[0] == 'hang':
+            ctx.fail('do_post:hang', 'consumer endpoint: do_post does not return after a failing notification handler', case)
+            return
+        if not wait_for(before + 1):
+            ctx.fail('deferred:worker-dead', 'consumer endpoint: after a notification whose handler raised, the next valid notification is '
+                     f'answered {r[1][0] if r[0] == "ok" else r[0]} but never processed (worker alive: {disp._worker.is_alive()})', case)
+            return
+        # more notifications than the queue holds
+        cap = disp._queue.maxsize or 1000
+        before = ran['n']
+        flood = cap + 60
+        for i in range(flood):
+            r = post()
+            if r[0] != 'ok':
+                ctx.fail('do_post:hang', f'consumer endpoint: do_post number {i + 1} of a burst of {flood} notifications (queue capacity {cap}) does '
+                         'not return', case)
+                return
+        if not wait_for(before + flood, timeout=30):
+            ctx.fail('deferred:request-not-handled', f'consumer endpoint: {ran["n"] - before} of {flood} accepted notifications were processed', case)
+        ctx.count('consumer-history:ok')
+        ctx.case({'k': 'consumer-history', 'flood': flood}, nontrivial=True,
+                 sample={'consumer_history': f'failing handler, then {flood} notifications on a queue of {cap}: all processed'})
+    finally:
+        c17.W_TIMEOUT = saved
+
+
 # ================================================================================================ raw HTTP against the real handler
 def http_stream(ctx, sess, L):
     """framing / coding / path damage on the HTTP level: real DispatchingRequestHandler with the provider's registry"""
@@ -1237,11 +1389,13 @@ def run(ctx):
     _corpus(ctx, L)
     injection_post(ctx, B, classes)
     injection_handler(ctx, L, B, classes)
+    deferred_correspondence(ctx, B, classes)
     B.flush()
     sess = session()
     ctx.notes['background_workers_stopped'] = sess.stopped_workers
     try:
         mutation_stream(ctx, sess)
+        consumer_history(ctx, sess)
         http_stream(ctx, sess, L)
         parser_oracle(ctx)
     finally:
@@ -1306,6 +1460,13 @@ def _run_case(ctx, L, case):
             ctx.fail('do_post:reply-path-unguarded', got, case)
         elif got.startswith('escape') and not any(s in case['stages'] for s in ('mkFaultMsg', 'serFault', 'read2', 'mkReply', 'serReply')):
             ctx.fail('do_post:exception-escapes', got, case)
+    elif k == 'deferred':
+        classes = {c[0]: c for c in exception_classes()}
+        handled, alive, stuck = impl_deferred(case['cap'], [(i, classes[n][1] if n else None) for i, n in case['items']])
+        if not alive or stuck or handled != [i for i, _ in case['items']]:
+            ctx.fail('deferred:worker-dead' if not alive else 'deferred:request-not-handled', f'handled {handled}, alive {alive}, blocked {stuck}', case)
+    elif k == 'consumer-history':
+        consumer_history(ctx, session())
     elif k in ('inject-do_POST', 'inject-do_GET'):
         classes = {c[0]: c for c in exception_classes()}
         table = {s: classes[n] for s, n in case['stages'].items() if n in classes}
@@ -1323,6 +1484,11 @@ def search(ctx):
         B = Batch(ctx)
         classes = exception_classes()
         injection_handler(ctx, L, B, classes)
+        if not ctx.failures:
+            deferred_correspondence(ctx, B, classes)
+        if not ctx.failures:
+            sess = session()
+            consumer_history(ctx, sess)
         if not ctx.failures:
             sess = session()
             http_stream(ctx, sess, L)
